@@ -226,10 +226,16 @@ func toLower(b byte) byte { return b + ('a' - 'A') }
 func toUpper(b byte) byte { return b - ('a' - 'A') }
 
 func runtimeHashWithCustomSalt(salt []byte) uint32 {
+	return pkgHashWithCustomSalt("runtime", salt)
+}
+
+// pkgHashWithCustomSalt is like hashWithCustomSalt, but returns a number
+// derived from the user specified seed or the given package's GarbleActionID.
+func pkgHashWithCustomSalt(pkgPath string, salt []byte) uint32 {
 	hasher.Reset()
 	if !flagSeed.present() {
-		runtimePkg, _ := sharedCache.ListedPackages.get("runtime")
-		hasher.Write(runtimePkg.GarbleActionID[:])
+		pkg, _ := sharedCache.ListedPackages.get(pkgPath)
+		hasher.Write(pkg.GarbleActionID[:])
 	} else {
 		hasher.Write(flagSeed.bytes)
 	}
@@ -239,9 +245,14 @@ func runtimeHashWithCustomSalt(salt []byte) uint32 {
 }
 
 // magicValue returns random magic value based
-// on user specified seed or the runtime package's GarbleActionID.
+// on user specified seed or the internal/abi package's GarbleActionID.
+//
+// The value is compiled into internal/abi and handed to the linker, and both must agree.
+// It cannot depend on the runtime package, which imports internal/abi:
+// a change to runtime alone, like a build tag selecting other files,
+// would not recompile internal/abi and leave the old value in it.
 func magicValue() uint32 {
-	return runtimeHashWithCustomSalt([]byte("magic"))
+	return pkgHashWithCustomSalt("internal/abi", []byte("magic"))
 }
 
 // entryOffKey returns random entry offset key
